@@ -677,8 +677,8 @@ fn labelled_cases(thorough: bool, rng: &mut Rng) -> Vec<Case> {
         });
     }
     // ---- regions of listed findings (judged like the others; failures there are expected)
-    // F25: a module-folder file whose directory has no name to strip (`init.luau`, `../init.luau`, `/init.luau`)
-    let f25 = Universe { region: "F25", ..plain.clone() };
+    // (repaired F25) a module-folder file whose directory has no name to strip (`init.luau`, `../init.luau`, `/init.luau`)
+    let f25 = Universe { region: "", ..plain.clone() };
     for source in ["init.luau", "./init.luau", "../init.luau", "/init.luau"] {
         let mut base = walk(&cwd(), source);
         base.pop();
@@ -912,16 +912,13 @@ fn convert_cases(labelled: &[Case], thorough: bool) -> Vec<ConvCase> {
     out
 }
 
-/// what a call `require("<literal>")` resolves to: the literal is normalised first
-/// (match_require.rs), reproduced here with the real normaliser
+/// what a call `require("<literal>")` must resolve to: exactly what the literal resolves to.
+/// (The rules normalise the literal first - match_require.rs - which must not matter; the oracle
+/// therefore asks the locator with the literal as written.)
 fn real_find_call(case: &Case) -> (String, Option<PathBuf>) {
-    let mut c = case.clone();
-    c.req = vh::normalize_path_with_current_dir(Path::new(&case.req)).to_str().unwrap_or("").to_owned();
-    real_find(&c)
+    real_find(case)
 }
 
-/// the property's demand on a conversion: resolve before, convert, resolve the new argument
-/// under the target mode, same location. Returns (file found before, failure).
 /// the location a require argument would be written for: module-folder file name or Lua extension dropped
 fn stripped(loc: &Loc) -> Loc {
     let mut l = loc.clone();
@@ -1063,15 +1060,6 @@ fn real_bundle(case: &Case) -> String {
         }
     })
     .unwrap_or_else(|_| "panic".to_owned())
-}
-
-/// `alias/..`: match_path_require_call normalises the literal, which swallows the alias (F30)
-fn alias_then_parent(req: &str) -> bool {
-    let mut segs = req.split('/').filter(|x| !x.is_empty() && *x != ".");
-    match (segs.next(), segs.next()) {
-        (Some(first), Some("..")) => first != ".." && !req.starts_with('/') && !req.starts_with('.'),
-        _ => false,
-    }
 }
 
 fn run_bundle_cases(cases: &[&Case], threads: usize) -> Vec<String> {
@@ -1760,7 +1748,6 @@ A locator case is non-trivial when at least one candidate file exists (the loop 
     rng.shuffle(&mut pool);
     pool.truncate(if thorough { 40_000 } else { 6_000 });
     let bundle_results = run_bundle_cases(&pool, threads);
-    let f30_known = known_entry(&known, "F30").is_some();
     for (case, got) in pool.iter().zip(bundle_results.iter()) {
         let want = match &case.expect {
             Some(Expect::File(loc)) => format!("marker {}", loc_string(loc)),
@@ -1774,7 +1761,7 @@ A locator case is non-trivial when at least one candidate file exists (the loop 
             report.hist("bundle", "skipped (documented file is a data file)");
             continue;
         }
-        let region = if alias_then_parent(&case.req) { "F30" } else { "" };
+        let region = "";
         // the first existing candidate may be a file without an extension (`the given path`,
         // `path/init`): resolution must still pick it, and the bundler - which loads resources by
         // extension - must refuse exactly that file with its "without an extension" error
@@ -1791,7 +1778,7 @@ A locator case is non-trivial when at least one candidate file exists (the loop 
             continue;
         }
         report.hist("bundle", if region.is_empty() { "differs" } else { region });
-        let excused = region == "F30" && f30_known;
+        let excused = false;
         if !excused {
             let mut input = case.to_json();
             input["op"] = json!("bundle");
@@ -2041,6 +2028,12 @@ fn check_corpus_entry(report: &mut Report, model: &mut Model, v: &Value, known: 
                 let (real, _) = real_find(&case);
                 let m = model.ask(&case.model_request());
                 report.case(Some(("corpus-find", input.to_string())));
+                // a stored documented answer (witness of a repaired finding) must be met
+                if let Some(right) = input["right_output"].as_str() {
+                    if real != right {
+                        report.violation(Violation { kind: s("oracle"), check: s("corpus/locator-documented-answer"), what: format!("documented `{}`, real `{}`", right, real), input: input.clone(), failing_input_found: true });
+                    }
+                }
                 if real != m {
                     report.violation(Violation { kind: s("correspondence"), check: s("corpus/locator"), what: format!("real `{}` model `{}`", real, m), input: input.clone(), failing_input_found: false });
                 }
